@@ -44,7 +44,7 @@ ALT_ALIAS = {'Wt': 'V', 'cl': 'v', 'hc': 'f', 'op': 'd', 'Lv': 'X', 'Rv': 'Y',
 QUICK = ['e3', 'amp2', 'ev2', 'm2', 'ip_cpl', 'tm2', 'ov2', 'mvp1', 're_amp2',
          'itmd_t2_2', 'e2@shared', 'amp2d@shared', 'norm4', 'itmd_p2',
          'spin_generic', 'spin_direct', 'real_ov2', 'spin_ov2', 'prec3s',
-         'rt_amp2', 'import_default', 'itmd_t1_3']
+         'rt_amp2', 'import_default', 'itmd_t1_3', 'itmd_p03oo']
 THOROUGH = QUICK + ['m1c', 'ea2', 're_e3', 'expec1', 'red_e2', 'sym_e2',
                     'fac_m1', 'code_m1', 'amp2d', 'e3@shared', 'm2@shared']
 
@@ -158,6 +158,8 @@ def run_case(case, res):
             return
         res.count('runs_compared')
         res.count('psi_norm_calls_monitored', rec.get('psi_norm_calls', 0))
+        res.count('itmd_contracted_indices_monitored',
+                  rec.get('itmd_indices_monitored', 0))
         if rec['history']:
             res.count('histories_nonempty')
             res.nontrivial = True
